@@ -97,10 +97,10 @@ func loadProgram() (*symx.Program, []harnessSrc, error) {
 		return nil, nil, err
 	}
 	cfg := &symx.Config{
-		RepoDir:  repoDir,
-		Patterns: []string{"./pkg/document", "./pkg/style", "./pkg/markdown"},
-		Overlay:  overlay,
-		InterpPkgs: []string{modPath},
+		RepoDir:     repoDir,
+		Patterns:    []string{"./pkg/document", "./pkg/style", "./pkg/markdown"},
+		Overlay:     overlay,
+		InterpPkgs:  []string{modPath},
 		InterpFuncs: symx.DefaultInterpFuncs(),
 	}
 	p, err := symx.Load(cfg)
